@@ -20,7 +20,7 @@ def write(name, text):
     return os.path.basename(p)
 
 
-def mc_cfg(name, threads, nkinds, classes, variants, nshards, maxops, keeps, ops, recheck="TRUE",
+def mc_cfg(name, threads, nkinds, classes, variants, nshards, maxops, keeps, ops, recheck="TRUE", skipbusy="FALSE",
            shardfns="MC_ShardFns", invs=INVS + " Placement", sym=True):
     return write(name, """SPECIFICATION Spec
 CONSTANTS
@@ -34,10 +34,11 @@ CONSTANTS
  KeepSets <- %s
  OpKinds <- %s
  Recheck = %s
+ ClearSkipsBusy = %s
 INVARIANTS %s
 VIEW MC_View
 %sCHECK_DEADLOCK FALSE
-""" % (threads, nkinds, classes, variants, nshards, shardfns, maxops, keeps, ops, recheck, invs,
+""" % (threads, nkinds, classes, variants, nshards, shardfns, maxops, keeps, ops, recheck, skipbusy, invs,
        "SYMMETRY MC_Sym\n" if sym else ""))
 
 
@@ -54,6 +55,7 @@ CONSTANTS
  KeepSets <- %s
  OpKinds <- %s
  Recheck = TRUE
+ ClearSkipsBusy = FALSE
  Weighted <- %s
  Enumerate = %s
 INVARIANTS AtMostOne SameStorage NoSharing LookupComplete DeleteTruthful ListingExact RemovalExact Emit
@@ -74,6 +76,7 @@ CONSTANTS
  KeepSets <- MC_NoSets
  OpKinds <- MC_NoOps
  Recheck = TRUE
+ ClearSkipsBusy = FALSE
 INVARIANTS %s
 POSTCONDITION TraceAccepted
 CHECK_DEADLOCK FALSE
@@ -146,21 +149,23 @@ def run(chk):
         "the key hashes like the canonical key of its class)",
         "sequentially consistent interleavings of the critical sections; the only unlocked window inside one call is the "
         "read->write gap of get_or_create_* (hook point reg.gap.pre); visit/retain/clear are not interleaved shard by shard "
-        "in scheduled runs (the code has no yield point there): TLC explores those interleavings, the real-parallel trials "
-        "sample them with schedule-independent checks",
+        "in scheduled runs (the code has no yield point there): TLC explores those interleavings with explicit shard locks, "
+        "the held-lock runs park a callback inside one shard, the real-parallel trials sample the rest with "
+        "schedule-independent checks",
         "key alphabet: labels with pairwise distinct names (duplicate label names: C03 CF03); key equality itself is C03",
         "lock poisoning (a panicking `op` closure) is not modelled",
     ]
     # ---- 1. exhaustive model checking
     V2, C3 = "{0,1}", "{1,2,3}"
-    mcs = [("all_2x2", mc_cfg("all_2x2", "{t1,t2}", 2, C3, V2, 2, 2, "MC_KeepSome", "MC_OpsAll"), {}),
+    mcs = [("all_2x2", mc_cfg("all_2x2", "{t1,t2}", 2, "{1,2}", V2, 2, 2, "MC_KeepSome", "MC_OpsAll"), {}),
            ("race_3x2", mc_cfg("race_3x2", "{t1,t2,t3}", 2, C3, V2, 1, 2, "MC_KeepSome", "MC_OpsRace"),
-            {"DoGet", "DoVisit", "DoRetain", "DoClear", "ScanStep"})]
+            {"DoGet", "DoVisit", "DoRetain", "DoClear", "ScanStep", "ScanRelease"})]
     if thorough:
-        mcs += [("scan_3x2", mc_cfg("scan_3x2", "{t1,t2,t3}", 2, "{1,2}", V2, 2, 2, "MC_KeepSome", "MC_OpsScan"), {"DoGet"}),
-                ("all_2x3", mc_cfg("all_2x3", "{t1,t2}", 2, C3, V2, 2, 3, "MC_KeepSome", "MC_OpsAll"), {}),
+        mcs += [("all_2x2_c3", mc_cfg("all_2x2_c3", "{t1,t2}", 2, C3, V2, 2, 2, "MC_KeepSome", "MC_OpsAll"), {}),
+                ("scan_3x2", mc_cfg("scan_3x2", "{t1,t2,t3}", 1, "{1,2}", V2, 2, 2, "MC_KeepSome", "MC_OpsScan"), {"DoGet"}),
+                ("all_2x3", mc_cfg("all_2x3", "{t1,t2}", 1, C3, V2, 2, 3, "MC_KeepSome", "MC_OpsAll"), {}),
                 ("race_4x2", mc_cfg("race_4x2", "{t1,t2,t3,t4}", 1, "{1,2}", V2, 2, 2, "MC_KeepSome", "MC_OpsRace"),
-                 {"DoGet", "DoVisit", "DoRetain", "DoClear", "ScanStep"}),
+                 {"DoGet", "DoVisit", "DoRetain", "DoClear", "ScanStep", "ScanRelease"}),
                 ("shards_3", mc_cfg("shards_3", "{t1,t2}", 1, C3, V2, 3, 2, "MC_KeepAll", "MC_OpsAll"), {})]
     for name, cfg, exempt in mcs:
         r = vlib.tlc_mc(SPEC, "MCRegistry", cfg, workers=8, timeout=3000 if thorough else 900, tag=name)
@@ -171,6 +176,9 @@ def run(chk):
                                                recheck="FALSE"), {"SameStorage", "AtMostOne"})
     negative_control(chk, "hash_contract_broken", mc_cfg("neg_hash", "{t1,t2}", 1, "{1,2}", V2, 2, 1, "MC_KeepSome", "MC_OpsGoc",
                                                          shardfns="MC_ShardFnsBroken", invs=INVS), {"LookupComplete", "AtMostOne", "SameStorage"})
+    # witness of the try_write variant of clear(): a shard whose lock is held (a visitor inside its callback) is skipped
+    negative_control(chk, "clear_skips_busy_shard", mc_cfg("neg_clear_skips_busy", "{t1,t2}", 1, "{1,2}", V2, 2, 2, "MC_KeepSome",
+                                                           "MC_OpsWitness", skipbusy="TRUE"), {"RemovalExact"})
 
     # ---- 2. harness against the repository's working tree
     ok, out, wall = vlib.cargo_build("c06")
@@ -271,8 +279,25 @@ def run(chk):
             chk.log("replayed %d TLC behaviours (%s) at %d shards: %d diverged from the schedule, %d events validated"
                     % (s["runs"], "enumerated races" if randv else "simulated", s["nshards"], s["diverged"], s["lines"]))
 
-    # ---- 5. real-parallel trials (8 creators of one fresh key behind a barrier; mixed creators/deleters/retain/visits)
-    nfree = 20000 if thorough else 1500
+    # ---- 5. held-lock runs: a visit_* callback / retain_* predicate parks inside a shard while another thread calls
+    #         clear / retain / delete / get_or_create / get / listings; a call that needs the held lock must not have
+    #         returned before the parked thread was let go (TLC decides: such a call is not enabled in the model)
+    nheld = 400 if thorough else 48
+    for pname, cpus in pins:
+        if pname in ("2cpu", "4cpu") and not thorough:
+            continue
+        tr = chk.path("held_%s.ndjson" % pname)
+        s = run_harness(chk, ["held", "--runs", nheld, "--out", tr], cpus, "held " + pname, timeout=1800)
+        n = validate(chk, tr, s, "held-lock runs (%d shards)" % s["nshards"])
+        total += n
+        chk.cov["distinct_nontrivial"] += s["distinct"]
+        chk.notes.setdefault("held", []).append({k: s.get(k) for k in ("nshards", "runs", "distinct", "lines", "hangs",
+                                                                        "calls_returned_while_lock_held", "calls_returned_after_release")})
+        chk.log("held-lock runs: %d at %d shards, %d calls returned while the lock was held, %d after the release: validated"
+                % (s["runs"], s["nshards"], s["calls_returned_while_lock_held"], s["calls_returned_after_release"]))
+
+    # ---- 6. real-parallel trials (8 creators of one fresh key behind a barrier; mixed creators/deleters/retain/visits)
+    nfree = 20000 if thorough else 1000
     for pname, cpus in pins:
         if pname in ("1cpu", "2cpu"):
             continue
@@ -289,7 +314,8 @@ def run(chk):
                        "assignment of classes to 1-3 shards; implementation: scheduler-driven runs at 1 / 2 / n shards "
                        "(distinct = distinct call + grant sequences, ignoring the construction path), TLC behaviours "
                        "(simulated sequential histories and races, every behaviour of the 2-thread x 2-call creator/deleter scope) "
-                       "replayed, real-parallel trials; evaluations = trace states in which TLC evaluated every invariant")
+                       "replayed, held-lock runs (a callback parked inside a shard while another thread calls the registry), "
+                       "real-parallel trials; evaluations = trace states in which TLC evaluated every invariant")
 
 
 def trace_to_programs(lines):
